@@ -409,8 +409,18 @@ class MustAnalysis:
             return merge(res)
         if isinstance(s, (ast.For, ast.AsyncFor)):
             self._uses(s.iter, states, s)
+            first = None
+            it = s.iter
+            if isinstance(s.target, ast.Name) and isinstance(it, ast.Call) and isinstance(it.func, ast.Name) \
+                    and it.func.id == "range" and not it.keywords and (
+                        len(it.args) == 1 or (len(it.args) == 2 and isinstance(it.args[0], ast.Constant)
+                                              and it.args[0].value == 0)):
+                # `for i in range(n)`: the first iteration runs with i == 0 (same knowledge as `i = 0; while i < n`)
+                first = ast.copy_location(ast.Assign(targets=[ast.Name(id=s.target.id, ctx=ast.Store())],
+                                                     value=ast.Constant(value=0)), s)
+                ast.fix_missing_locations(first)
             return self._loop(s, states, header=ast.Assign(targets=[s.target], value=ast.Constant(value=None)),
-                              test=None)
+                              test=None, first_header=first)
         if isinstance(s, ast.While):
             return self._loop(s, states, header=None, test=s.test)
         if isinstance(s, (ast.With, ast.AsyncWith)):
@@ -512,11 +522,12 @@ class MustAnalysis:
         elif isinstance(t, ast.Attribute):
             yield t.value
 
-    def _loop(self, s, states, header, test):
+    def _loop(self, s, states, header, test, first_header=None):
         ctx = {"breaks": [], "continues": []}
         self.loop_stack.append(ctx)
         pre = states
         head = pre
+        back = []
         body_in = None
         body_out = []
         for _ in range(12):
@@ -531,13 +542,18 @@ class MustAnalysis:
                     if f is not None:
                         nxt.append(St(f, st.tokens))
                 cur = nxt
-            if header is not None:
+            if header is not None and first_header is not None:
+                # entry from before the loop: counter == 0;  entry over the back edge: unknown counter
+                cur = merge(self._apply(first_header, list(pre), pseudo=None)
+                            + (self._apply(s, list(back), pseudo=header) if back else []))
+            elif header is not None:
                 cur = self._apply(s, cur, pseudo=header)
             lk = frozenset(self.loop_iter_kill(s))
             if lk:
                 cur = merge([St(x.facts, x.tokens - lk) for x in cur])
             body_in = cur
             body_out = self.block(s.body, cur)
+            back = merge(body_out + ctx["continues"])
             new_head = merge(pre + body_out + ctx["continues"])
             if states_sig(new_head) == states_sig(head):
                 head = new_head
@@ -556,7 +572,18 @@ class MustAnalysis:
             ex = list(head)
         if s.orelse:
             ex = self.block(s.orelse, ex)
-        return merge(ex + ctx["breaks"])
+        out = ex + ctx["breaks"]
+        if first_header is not None:
+            # what the counter was in some iteration is of no use after the loop: forget its value facts
+            # (keeps the number of disjuncts down; whether the name is bound is tracked by tokens, not facts)
+            nm = first_header.targets[0].id
+            cleaned = []
+            for st in out:
+                f = st.facts.copy()
+                f.kill([nm])
+                cleaned.append(St(f, st.tokens))
+            out = cleaned
+        return merge(out)
 
 
 def _load_copy(t):
